@@ -716,8 +716,18 @@ def mixin_case(case):
     if err is not None and len(bc) == 1:
         # raised inside the base constructor: the same finding as for the plain selector
         keys = '+'.join(sorted(k for (w, k) in setl if w == 'base')) or '-'
+        # (a value the class itself refuses - a zero opacity - is refused by the library call with the arrived arguments
+        # in the same words: nothing of the input file's doing)
+        try:
+            base(**dict(bc[0][2]))
+            lib_err = None
+        except Exception as e2:
+            lib_err = e2
+        if lib_err is not None and type(lib_err) is type(err) and str(lib_err) == str(err):
+            r.count('ctor-refuses-value-as-the-library-call-does')
+            return r
         r.check(False, 'constructor-accepts', 'ctor-raised/%s/%s/%s/%s' % (sec, sel, keys, exc_sig(err)),
-                exc=repr(err), text=text)
+                exc=repr(err), text=text, library_call=repr(lib_err))
         return r
     if not r.check(err is None, 'builds', 'build-raised/%s/%s' % (tag, exc_sig(err)), exc=repr(err),
                    text=text):
